@@ -181,6 +181,14 @@ def invariant(obj, created):
             probs.append((name, 'shape', a.shape))
         elif name in created and a.dtype.str != created[name]:
             probs.append((name, 'dtype', a.dtype.str, created[name]))
+    for name in obj.index:
+        a = vars(obj).get('_' + name)
+        if isinstance(a, np.ndarray) and not hasattr(type(obj), name):
+            try:
+                if getattr(obj, name) is not a or obj[name] is not a:
+                    probs.append((name, 'shadowed', 'attribute/key read does not return the series'))
+            except Exception as e:
+                probs.append((name, 'unreadable', type(e).__name__))
     rows = list(obj.names) if hasattr(obj, 'names') else list(obj.index)
     try:
         v = obj.values
@@ -229,7 +237,7 @@ def reference_candidates(old, value):
     return out
 
 
-def step_oracle(obj, op, before_series, before_obs, exc, created, nonstrict_twin_accepts=None):
+def step_oracle(obj, op, before_series, before_obs, exc, created, nonstrict_twin_accepts=None, attribute_survives_strict=None):
     """Return list of (key, expected, observed, what)."""
     kind, name, arg = op
     out = []
@@ -304,6 +312,14 @@ def step_oracle(obj, op, before_series, before_obs, exc, created, nonstrict_twin
                 out.append(('accepted-misfit:setslice', 'raises', 'accepted', 'slice assignment of a misfitting operand accepted'))
         else:
             out.append(('absent-label-accepted:slice', 'KeyError', 'accepted', 'slice bound outside the span accepted'))
+    if kind == 'add_attribute' and name in index_before:
+        if exc is None or not unchanged():
+            out.append(('duplicate-accepted:add_attribute', 'raises, nothing changed', type(exc).__name__ if exc else 'accepted',
+                        'add_attribute with the name of an existing variable must raise and change nothing'))
+    if kind in ('newattr', 'add_attribute') and exc is None and name not in index_before and attribute_survives_strict is not None:
+        problem = attribute_survives_strict()
+        if problem:
+            out.append(('strict:existing-attribute-update-rejected', 'accepted', problem, 'an attribute that exists must still be assignable once strict=True is set'))
     if kind == 'newattr':
         is_new = name not in before_attr_names(before_obs) and name not in index_before
         if strict and is_new:
@@ -419,8 +435,18 @@ def run_transition(kind, hist, i):
         except Exception:
             return False
 
+    def attribute_survives_strict():
+        twin, _ = replay(kind, hist)
+        try:
+            apply_op(twin, op)
+            twin.strict = True
+            setattr(twin, op[1], 'again')
+            return None
+        except Exception as e:
+            return '%s: %s' % (type(e).__name__, str(e)[:100])
+
     if not v:
-        v += step_oracle(obj, op, before_series, before_obs, exc, created, twin_accepts)
+        v += step_oracle(obj, op, before_series, before_obs, exc, created, twin_accepts, attribute_survives_strict)
     after = observe(obj)
     return v, key_of(after), after != before_obs, type(exc).__name__ if exc else None
 
